@@ -516,7 +516,7 @@ def _sh(nsub, nops):
             product_pins(subject=list(range(nsub)), k=[2], g0=[0, 1, 2, 3])
         if tier == "quick":
             return base
-        return base + product_pins(subject=[0, nsub - 1], k=[3], o0=list(range(nops)))
+        return base + product_pins(subject=[0], k=[3], o0=list(range(min(6, nops))))
     return shards
 
 
